@@ -350,7 +350,7 @@ func (u *Unit) load(st *State, addr *Term, t types.Type, guard *Term) *SV {
 // leafAddrs enumerates (address, sort) of every leaf of a value of type t at addr.
 func (u *Unit) leafAddrs(addr *Term, t types.Type, out *[]leafLoc) {
 	if s := u.leafSort(t); s != nil {
-		*out = append(*out, leafLoc{addr, s})
+		*out = append(*out, leafLoc{addr, s, nil})
 		return
 	}
 	switch tt := t.Underlying().(type) {
@@ -368,6 +368,7 @@ func (u *Unit) leafAddrs(addr *Term, t types.Type, out *[]leafLoc) {
 type leafLoc struct {
 	Addr *Term
 	Sort *Sort
+	Cond *Term // location exists only under this condition (nil = always)
 }
 
 // store writes v (of type t) at addr (no frame check here).
